@@ -6,7 +6,7 @@ from .. import gen, impl, oracle, ser, stream
 
 ID = "C04"
 LEVEL = "proof"
-PROPS_MODULE = "SymmModel.Props.C04All2"
+PROPS_MODULE = "SymmModel.Props.C04All4"
 THEOREMS = [
     "SymmModel.C04.permuted_compose",
     "SymmModel.C04.compose_isPerm",
@@ -49,10 +49,23 @@ THEOREMS = [
     "SymmModel.C04.contractibleCommonB_def",
     "SymmModel.C04.assoc_vocabulary",
     "SymmModel.C04.route_left_value",
-    "SymmModel.C04.pruned_not_contractible"
+    "SymmModel.C04.pruned_not_contractible",
+    "SymmModel.C04.tdotF_assoc",
+    "SymmModel.C04.tdotF_assoc_labels",
+    "SymmModel.C04.tdotF_assoc_at",
+    "SymmModel.C04.tdotF_assoc_GRat",
+    "SymmModel.C04.labelRoutes_iff",
+    "SymmModel.C04.labelRoutes_of_distinct",
+    "SymmModel.C04.labelRoutes_norm_one",
+    "SymmModel.C04.conjugate_pairs_labels_route_dependent",
+    "SymmModel.C04.conjugate_pairs_same_value",
+    "SymmModel.C04.assoc2_vocabulary",
+    "SymmModel.C06.tdotF_axes_perm_any_mode",
+    "SymmModel.C06.tdotF_pretranspose_any_mode",
+    "SymmModel.C06.tdotF_swap_any_mode"
 ]
-LEAN_FILES = ["SymmModel.Props.C04", "SymmModel.Proofs.Oddpos", "SymmModel.Proofs.Koszul", "SymmModel.Props.C04b", "SymmModel.Props.C04All", "SymmModel.Proofs.Routes", "SymmModel.Proofs.Routes2", "SymmModel.Proofs.Routes3", "SymmModel.Proofs.Routes4", "SymmModel.Props.C04c", "SymmModel.Props.C04All2", "SymmModel.Proofs.AssocWeak", "SymmModel.Proofs.AssocGeom", "SymmModel.Proofs.AssocSum", "SymmModel.Proofs.AssocFrame", "SymmModel.Proofs.AssocLeft", "SymmModel.Proofs.AssocRight", "SymmModel.Proofs.AssocIdx", "SymmModel.Proofs.AssocMain"]
-PLANNED = ["S7 with A-C legs (triangles", "chain A-B-C proved as tdotF_assoc_partial)", "S4-S7 for mode = fused (follows from C06b fused = blockwise at tensordotA)", "labels with conjugate pairs across operands"]
+LEAN_FILES = ["SymmModel.Props.C04", "SymmModel.Proofs.Oddpos", "SymmModel.Proofs.Koszul", "SymmModel.Props.C04b", "SymmModel.Props.C04All", "SymmModel.Proofs.Routes", "SymmModel.Proofs.Routes2", "SymmModel.Proofs.Routes3", "SymmModel.Proofs.Routes4", "SymmModel.Props.C04c", "SymmModel.Props.C04All2", "SymmModel.Proofs.AssocWeak", "SymmModel.Proofs.AssocGeom", "SymmModel.Proofs.AssocSum", "SymmModel.Proofs.AssocFrame", "SymmModel.Proofs.AssocLeft", "SymmModel.Proofs.AssocRight", "SymmModel.Proofs.AssocIdx", "SymmModel.Proofs.AssocMain", "SymmModel.Props.C04d", "SymmModel.Props.C04All3", "SymmModel.Proofs.Assoc2Geom", "SymmModel.Proofs.Assoc2Sum", "SymmModel.Proofs.Assoc2Left", "SymmModel.Proofs.Assoc2Right", "SymmModel.Proofs.Assoc2Main", "SymmModel.Props.C06c", "SymmModel.Props.C04All4"]
+PLANNED = ["four-tensor chains (S7 with the weak guard on first-level calls)", "LabelRoutes for fully paired label lists longer than one", "S7 for mode = fused (S4-S6 proved for fused/auto in C06c)"]
 RULE = ("random networks of 2-4 fermionic tensors (chains, triangles, stars; with and without dangling legs), all "
         "symmetries, random bond orientations, every mix of even/odd charges with distinct labels, sparse, pending "
         "signs; 4 random routes per network differing in contraction order, operand order, axis listing order, "
